@@ -1,6 +1,8 @@
 package props
 
 import (
+	"io"
+	"log"
 	"os"
 	"testing"
 )
@@ -23,6 +25,8 @@ func TestMain(m *testing.M) {
 		isoChildMain(name)
 		os.Exit(0)
 	}
+	// the library logs accept errors etc. through the std logger; keep the test output readable
+	log.SetOutput(io.Discard)
 	code := m.Run()
 	if scratchPath != "" {
 		os.RemoveAll(scratchPath)
